@@ -172,6 +172,7 @@ func sessions(tier string) []session {
 		{Name: "2-concurrent-one-rejected", Groups: [][]call{{cBadIn, cSum}}, MaxDelay: 1},
 		{Name: "2-concurrent-same-step", Groups: [][]call{{cGreetA, cGreetB}}, MaxDelay: 1},
 		{Name: "1-greet-signal", Groups: [][]call{{cGreetS}}, MaxDelay: 1},
+		{Name: "2-concurrent-same-run-id", Groups: [][]call{{cGreetA, cGreetA}}, MaxDelay: 1},
 		{Name: "6-rejected-1-good-concurrent-reader-stalls", StallReader: true, MaxDelay: -1,
 			Groups: [][]call{{badIn("e1"), badIn("e2"), badIn("e3"), badIn("e4"), badIn("e5"), badIn("e6"), cGreetA}}},
 		{Name: "1-echo-rich-payload", Groups: [][]call{{cEcho}}, MaxDelay: 0},
@@ -505,9 +506,40 @@ func judge(se *session, r *mcrt.Result) (string, []mc.Finding) {
 		add("Close failed on a healthy connection", o.closeErr.Error())
 	}
 	var ks []string
+	issued := map[string]int{}
+	for _, g := range se.Groups {
+		for _, c := range g {
+			issued[c.RunID]++
+		}
+	}
+	judged := map[string]bool{}
 	for _, g := range se.Groups {
 		for _, c := range g {
 			rs := o.results[c.RunID]
+			if n := issued[c.RunID]; n > 1 {
+				// the same run id issued more than once at the same time: whichever call the client lets through returns
+				// the in-process result, every other one that result or an error of its own
+				if judged[c.RunID] {
+					continue
+				}
+				judged[c.RunID] = true
+				w := se.expected()[c.RunID]
+				good := 0
+				for _, res := range rs {
+					if res.Error == nil && res.OutputID == w.OutputID && reflect.DeepEqual(res.OutputData, w.Data) {
+						good++
+					} else if res.Error == nil {
+						add("Execute returned something else than the in-process call", fmt.Sprintf("run %s (issued %d times): got (%q, %#v) want (%q, %#v)", c.RunID, n, res.OutputID, res.OutputData, w.OutputID, w.Data))
+					}
+				}
+				if len(rs) != n {
+					add("Execute did not return exactly once", fmt.Sprintf("run %s issued %d times: %d returns", c.RunID, n, len(rs)))
+				} else if good == 0 {
+					add("a run id issued twice: no call returned the in-process result", fmt.Sprintf("run %s: %v", c.RunID, rs))
+				}
+				ks = append(ks, fmt.Sprintf("%s=%dof%d", c.RunID, good, n))
+				continue
+			}
 			if len(rs) != 1 {
 				add("Execute did not return exactly once", fmt.Sprintf("run %s: %d returns", c.RunID, len(rs)))
 				continue
@@ -573,7 +605,7 @@ func main() {
 			if tier == "thorough" {
 				return 25 * time.Minute
 			}
-			return 150 * time.Second
+			return 300 * time.Second
 		},
 		Assumptions: []string{
 			"expected results are computed by calling CallableSchema.CallStep in-process on a fresh plugin instance with the CBOR-normalised input",
